@@ -55,6 +55,9 @@ theorem fetch_ok {content pre : Bytes} {o : Outcome}
     H (pre ++ (fetch H content pre false o).sent) = H content ∧
     (fetch H content pre false o).sent.length = content.length - pre.length := by
   unfold fetch at h ⊢
+  by_cases hoff : reachesOffsetCheck o = true ∧ 0 < pre.length ∧ content.length ≤ pre.length
+  · rw [if_pos hoff] at h; cases h
+  rw [if_neg hoff] at h ⊢
   cases hb : bodyOf content o with
   | none => rw [hb] at h; exact absurd h (preErr_ne_ok o)
   | some full =>
@@ -77,6 +80,9 @@ theorem fetch_transport {content pre : Bytes} {o : Outcome}
     (fetch H content pre false o).sent = [] ∨
     (fetch H content pre false o).sent.length < content.length - pre.length := by
   unfold fetch at h ⊢
+  by_cases hoff : reachesOffsetCheck o = true ∧ 0 < pre.length ∧ content.length ≤ pre.length
+  · rw [if_pos hoff] at h; cases h
+  rw [if_neg hoff] at h ⊢
   cases hb : bodyOf content o with
   | none => left; rfl
   | some full =>
@@ -91,7 +97,7 @@ theorem fetch_transport {content pre : Bytes} {o : Outcome}
 
 /-! ## the replica-side procedure when the final file is absent -/
 
-theorem resume_cases (f : Facts) (size : Nat) {r : Rep} (hr : r.final = none) :
+theorem resume_cases (f : Facts) (hrb : f.resumeFullPart = false) (size : Nat) {r : Rep} (hr : r.final = none) :
     resumePrefix f size r = [] ∨
     (r.part = some (resumePrefix f size r) ∧ (resumePrefix f size r).length < size ∧
       resumePrefix f size r ≠ []) := by
@@ -102,7 +108,7 @@ theorem resume_cases (f : Facts) (size : Nat) {r : Rep} (hr : r.final = none) :
   · cases hp : r.part with
     | none => left; rfl
     | some p =>
-      simp only [if_true, Option.map_some]
+      simp only [if_true, Option.map_some, hrb, Bool.false_eq_true, if_false]
       by_cases h0 : p.length = 0 ∨ size ≤ p.length
       · left; rw [if_pos h0]
       · right
@@ -122,7 +128,7 @@ def pullSpec (f : Facts) (pre sent : Bytes) (e : FErr) : Rep :=
 def midSpec (pre sent : Bytes) (e : FErr) : Rep :=
   if e = .ok then ⟨some (pre ++ sent), none⟩ else ⟨none, some (pre ++ sent)⟩
 
-theorem pullOnce_eq (f : Facts) (hpo : f.promoteAfterVerdict = true) (content : Bytes) (resume : Bool)
+theorem pullOnce_eq (f : Facts) (hord : f.orderOK = true) (content : Bytes) (resume : Bool)
     {r : Rep} (o : Outcome) (hr : r.final = none) :
     ∃ pre : Bytes,
       (pre = [] ∨ (r.part = some pre ∧ pre.length < content.length ∧ pre ≠ [])) ∧
@@ -131,17 +137,21 @@ theorem pullOnce_eq (f : Facts) (hpo : f.promoteAfterVerdict = true) (content : 
         ⟨pullSpec f pre (fetch H content pre false o).sent (fetch H content pre false o).err,
          (fetch H content pre false o).err, pre.length,
          midSpec pre (fetch H content pre false o).sent (fetch H content pre false o).err⟩ := by
+  have hpo : f.promoteAfterVerdict = true := by
+    unfold Facts.orderOK at hord; simp at hord; exact hord.1
+  have hrb : f.resumeFullPart = false := by
+    unfold Facts.orderOK at hord; simp at hord; exact hord.2
   refine ⟨if resume then resumePrefix f content.length r else [], ?_, ?_, ?_⟩
   · cases resume
     · simp
-    · simpa using resume_cases f content.length hr
+    · simpa using resume_cases f hrb content.length hr
   · intro h; simp [h]
   · have hc : (if resume then resumePrefix f content.length r else []) = [] ∨
         (r.part = some (if resume then resumePrefix f content.length r else []) ∧
           (if resume then resumePrefix f content.length r else []) ≠ []) := by
       cases resume
       · simp
-      · rcases resume_cases f content.length hr with h | ⟨h1, _, h3⟩
+      · rcases resume_cases f hrb content.length hr with h | ⟨h1, _, h3⟩
         · left; simpa using h
         · right; exact ⟨by simpa using h1, by simpa using h3⟩
     unfold pullOnce
@@ -361,7 +371,7 @@ theorem fetch_ok_from_zero (content : Bytes) :
   simp [fetch, bodyOf]
 
 /-- first attempt of a fresh `processEntry` call whose first candidate peer is healthy -/
-theorem attemptStep_fresh_ok {f : Facts} (hpo : f.promoteAfterVerdict = true) {content : Bytes}
+theorem attemptStep_fresh_ok {f : Facts} (hpo : f.orderOK = true) {content : Bytes}
     (maxA : Nat) (r : Rep) (c : Counters)
     (rest : List Outcome) (hg : GoodFinal H content r) (hnp : ¬ Phantom f content r) :
     let s' := attemptStep H f content maxA (PState.start r c) (.ok :: rest)
